@@ -415,7 +415,11 @@ func (req *SrvReq) Respond() {
 
 	verifPoint("respond.posted", req)
 	if (status & reqFlush) == 0 {
-		conn.reqout <- req
+		select {
+		case conn.reqout <- req:
+		case <-conn.done:
+			/* the connection is gone, nobody is going to send the response */
+		}
 	}
 
 	verifPoint("respond.queued", req)
